@@ -9,6 +9,7 @@ import copy
 from . import engine as E
 
 STUBS = [
+    'range in engine -> yields proxies when a bound is a proxy (values used as keys of address-keyed dictionaries)',
     'bytearray -> list-backed SymByteArray in bytecode.packed_bits, bytecode.assembled, line_object, engine',
     'int -> proxy-aware cast (always yields a proxy; isinstance(x, int) accepts proxies) in expression, utilities, bytecode.parts, model, line_object.data_line, __main__ (the command callback is the entry point of PIPE runs)',
     'Fraction -> exact rational proxy (SymRat) in expression; float (if the code uses it) -> IEEE binary64 proxy (z3 FP theory)',
@@ -120,28 +121,55 @@ class _Json:
         return fn()
 
 
-NONDET_LIMIT = 5
+NONDET_SEEDS = 12     # order selectors ("hash seeds") explored per path
+NONDET_FULL = 3       # sets up to this size: the selectors reach all n! orders
+NONDET_LIMIT = 6      # sets up to this size: the selectors reach every rotation of the canonical order and its reversal
 
 
 class NondetSet(set):
-    """Stand-in for `set` whose iteration order is chosen by the solver: CPython's order depends on the hash seed of
-    the process, so every order is possible.  Each iteration forks over all permutations (sets of <= NONDET_LIMIT
-    elements; larger ones make the shape inconclusive).  Membership, len, and set algebra are the real ones."""
+    """Stand-in for `set` whose iteration order is chosen by the solver.  CPython's order is a function of the hash
+    seed of the process, so a run has ONE seed that fixes the order of every set: the stub asks the engine for one
+    order selector per path (a K-way fork, K = NONDET_SEEDS) and derives the order of each set from it - for sets of
+    <= NONDET_FULL elements the selectors reach all n! permutations, up to NONDET_LIMIT every rotation and reversed
+    rotation (each element comes first and last); larger sets make the shape inconclusive.  Orders of different sets
+    on one path are correlated (as they are in one real process).  Membership, len and set algebra are the real ones."""
 
     def __iter__(self):
+        import itertools
         import z3
         items = sorted(set.__iter__(self), key=repr)
         ctx = E.Ctx.cur
-        if ctx is None or len(items) < 2:
+        n = len(items)
+        if ctx is None or n < 2:
             return iter(items)
-        if len(items) > NONDET_LIMIT:
-            raise E.Inconclusive(f'iteration over a set of {len(items)} elements (more than {NONDET_LIMIT}! orders)')
-        pool, order = list(items), []
-        while len(pool) > 1:
-            k = ctx.choose(z3.BitVec(f'iteration_order_{ctx.pos}', E.W), rng=(0, len(pool) - 1))
-            order.append(pool.pop(k))
-        order.append(pool[0])
-        return iter(order)
+        if n > NONDET_LIMIT:
+            raise E.Inconclusive(f'iteration over a set of {n} elements')
+        k = ctx.choose(z3.BitVec('set_iteration_order_selector', E.W), rng=(0, NONDET_SEEDS - 1))
+        if n <= NONDET_FULL:
+            perms = list(itertools.permutations(items))
+            return iter(perms[k % len(perms)])
+        r = k % n
+        order = items[r:] + items[:r]
+        return iter(order if (k // n) % 2 == 0 else order[::-1])
+
+
+def _sym_range(*args):
+    """`range` as seen by the engine module: when a bound is a proxy the values it yields are proxies too, so that they
+    can be used as keys of dictionaries keyed by proxy addresses (a plain int and a proxy do not share a hash)"""
+    import builtins
+    if not any(isinstance(a, E.SymInt) for a in args):
+        return builtins.range(*args)
+    start, stop, step = (0, args[0], 1) if len(args) == 1 else (args[0], args[1], args[2] if len(args) > 2 else 1)
+    if isinstance(step, E.SymInt):
+        step = int(step)
+
+    def gen():
+        # the same control flow as `i = start; while i < stop: ...; i += step` on proxies (no concretisation)
+        i = start if isinstance(start, E.SymInt) else E.SymInt(E.bvval(start))
+        while (i < stop) if step > 0 else (i > stop):
+            yield i
+            i = i + step
+    return gen()
 
 
 NONDET_SET_MODULES = ['bespokeasm.assembler.engine', 'bespokeasm.assembler.assembly_file', 'bespokeasm.assembler.model',
@@ -174,6 +202,7 @@ def install():
     import bespokeasm.assembler.bytecode.parts as parts
     import bespokeasm.assembler.model as model
     pbm.bytearray = E.SymByteArray
+    eng.range = _sym_range
     lom.bytearray = E.SymByteArray
     eng.bytearray = E.SymByteArray
     import bespokeasm.assembler.bytecode.assembled as asmd
